@@ -258,7 +258,8 @@ class MPI(long):
         return ((self.bit_length() + 7) // 8)
 
     def to_mpibytes(self):
-        return MPIs.int_to_bytes(self.bit_length(), 2) + MPIs.int_to_bytes(self, self.byte_length())
+        # int_to_bytes never returns fewer than one octet; an MPI of zero has no value octets
+        return MPIs.int_to_bytes(self.bit_length(), 2) + (MPIs.int_to_bytes(self, self.byte_length()) if self else b'')
 
     def __len__(self):
         return self.byte_length() + 2
